@@ -31,6 +31,18 @@ def _run(ctx, w):
     from rules import c02
     c02.relayout_clears_wrap(ctx, w, S, R, "Y10")
     shared.mode_arm_siblings(ctx, w, S, R, "Y11")
+    # Y13: the whole print clause, semantically
+    ctx.rule("Y13", "the print handler evaluated on 3x3 symbolic terminals (every valid margin pair, cursor position, wrap-pending / auto-wrap / insert-mode combination) does exactly what the statement says: "
+                    "deferred wrap first (column 0 of the next row, region scrolled on the bottom margin, the row left marked soft-wrapped; nothing of that on the last row below the region), then the cell under "
+                    "the cursor (insert mode shifts, the last column is overwritten), then advance or park wrap-pending (auto-wrap on only)")
+    try:
+        from rules import hinterp as _hi
+        okp, infop = _hi.print_semantics(w, S, R, w.handler("Print")[0])
+        ctx.check(okp, "Y13", "print", str(infop), loc=w.fn_loc(w.handler("Print")[0]), sample={"cases": infop})
+        if okp:
+            ctx.rule_counts["Y13"] = infop
+    except Exception as ex:
+        ctx.violation("Y13", "print", "cannot evaluate the print handler: %r" % (ex,))
     # "no other cell or soft-wrap mark changes": the buffer-level print / insert primitives against their specification
     from rules import prims as _prims
     _prims.buffer_edit_primitives(ctx, w, S, R, "Y9b", spec=True)
@@ -139,7 +151,26 @@ def lit(v):
     raise H.Unsupported("non-integer operand")
 
 
+_Y3SEM = {}
+
+
+def print_ok(w, S, R):
+    """Silent verdict of the print handler's semantic form (cached per fact set)."""
+    c = getattr(w.facts, "_print_ok", None)
+    if c is None:
+        try:
+            from rules import hinterp
+            hs = w.handler("Print")
+            c = len(hs) == 1 and hinterp.print_semantics(w, S, R, hs[0])[0] is True
+        except Exception:
+            c = False
+        w.facts._print_ok = c
+    return c
+
+
 def print_rules(ctx, w, S, R):
+    _Y3SEM.clear()
+    ctx = shared.Deferred(ctx, {"Y4", "Y5"}, print_ok(w, S, R))       # shape forms of clauses the evaluated print handler (Y13) decides
     E = w.E
     cur = R["cursor"]
     hs = w.handler("Print")
@@ -214,10 +245,23 @@ def print_rules(ctx, w, S, R):
                 continue
             gs = [(WD.strip_names(c), v) for c, v in w.guards_of(f, cs.point[0])]
             g = any(c == aw and v is True for c, v in gs) and any(c == pw and v is True for c, v in gs)
+            rt = WD.strip_names(T.operand(cs.term["args"][1], cs.point))
+
+            def sem_y3():
+                """the semantic form of the whole clause, evaluated once"""
+                if "v" not in _Y3SEM:
+                    try:
+                        from rules import hinterp
+                        _Y3SEM["v"] = hinterp.wrap_mark_semantics(w, S, R, h)
+                    except Exception as ex:
+                        _Y3SEM["v"] = (False, "semantic evaluation not possible: %s" % (ex,))
+                return _Y3SEM["v"]
+            if not g and sem_y3()[0]:
+                g = True
             ctx.check(g, "Y3", key + ":guard", "the soft-wrap mark is set without having established auto_wrap && wrap_pending (guards: %s)" % [(w.tstr(f, c), v) for c, v in gs], loc=w.site_loc(cs),
                       sample={"site": key, "guards": [(w.tstr(f, c), v) for c, v in gs]})
-            rt = WD.strip_names(T.operand(cs.term["args"][1], cs.point))
-            ctx.check(rt == row_t, "Y3", key + ":row", "the soft-wrap mark is set on row %s instead of the cursor row" % w.tstr(f, rt), loc=w.site_loc(cs))
+            okr = rt == row_t or sem_y3()[0]
+            ctx.check(okr, "Y3", key + ":row", "the soft-wrap mark is set on row %s instead of the row the cursor is leaving [%s]" % (w.tstr(f, rt), sem_y3()[1] if not okr else ""), loc=w.site_loc(cs))
             # leaves the row afterwards on every path (a callee counts only if IT scrolls / moves down on every one of its paths)
             def always_leaves(g, depth=0):
                 if depth > 4 or g not in w.bodies:
@@ -245,18 +289,14 @@ def print_rules(ctx, w, S, R):
                     leave.add(c2.point)
             okl = b.every_path_to_return_hits(cs.point, leave)
             why_sem = ""
-            if not (okl and g and rt == row_t):
+            if not okl:
                 # shape not recognised (e.g. the mark hoisted in front of a helper that decides scroll / move / stay):
                 # decide the clause semantically on small symbolic terminals
-                try:
-                    from rules import hinterp
-                    oks, info = hinterp.wrap_mark_semantics(w, S, R, h)
-                    if oks:
-                        okl = True
-                    else:
-                        why_sem = " [" + str(info) + "]"
-                except Exception as ex:
-                    why_sem = " [semantic evaluation not possible: %s]" % (ex,)
+                oks, info = sem_y3()
+                if oks:
+                    okl = True
+                else:
+                    why_sem = " [" + str(info) + "]"
             ctx.check(okl, "Y3", key + ":leaves", "after marking the row soft-wrapped some path neither scrolls the region nor moves the cursor down: a row the cursor never left is marked as continuing on the next row "
                       "(e.g. the last row when it lies below the scroll region)" + why_sem, loc=w.site_loc(cs), sample={"site": key, "leave_sites": len(leave)})
             # no write to the cursor row between the guard and the mark
